@@ -34,9 +34,10 @@ def run_bx(c, repo, workdir, tier):
         return comp
     os.makedirs(SCRATCH, exist_ok=True)
     os.makedirs(CACHE, exist_ok=True)
-    lock = open(os.path.join(CACHE, f"bx-{pkg}.lock"), "w")
+    # one scratch path and one target dir for all bounded harnesses: the workspace is then compiled once, not per package
+    lock = open(os.path.join(CACHE, "bx-shared.lock"), "w")
     fcntl.flock(lock, fcntl.LOCK_EX)
-    dest = os.path.join(SCRATCH, "bx-" + pkg)
+    dest = os.path.join(SCRATCH, "bx-repo")
     try:
         sync_repo(repo, dest)
         attach = os.path.join(dest, c["crate_dir"], c["attach"])
@@ -50,7 +51,7 @@ def run_bx(c, repo, workdir, tier):
             with open(os.path.join(dest, c["crate_dir"], extra["file"]), "a") as f:
                 f.write("\n" + extra["text"] + "\n")
         env = dict(os.environ)
-        env.update({"CARGO_NET_OFFLINE": "true", "CARGO_TARGET_DIR": os.path.join(CACHE, "bx-target", pkg),
+        env.update({"CARGO_NET_OFFLINE": "true", "CARGO_TARGET_DIR": os.path.join(CACHE, "bx-target", "shared"),
                     "VERIF_BX_DEPTH": str(c.get("depth_thorough" if tier == "thorough" else "depth_quick", c.get("depth", 4)))})
         cmd = ["cargo", "test", "--offline", "-p", pkg, "--lib", modname, "--", "--nocapture", "--test-threads", "1"]
         comp["cmd"] = " ".join(cmd)
